@@ -19,6 +19,11 @@ CLAIMED = {
         technique="fault injection at the parsers' byte sources (scripted reader, simulated socket, real include files): EOF/reset at every offset, every single-byte substitution and bit flip, delimiter deletion/doubling, boundary and huge length fields, UTF-8 at every slicing position, deep nesting; isolated worker processes with a counting allocator, 2 MiB stacks, read budgets and a watchdog",
         text="For each target (request, response, frame, WebSocket message blocking/non-blocking, JSON, config+include) and each seed message every truncation offset and every single-byte mutant of the families is enumerated and delivered whole and bytewise; oracle: returns Ok/Err (no panic, abort, SIGSEGV), terminates within a read budget/watchdog, peak heap <= 64 KiB + 8x (512x for tree-building parsers) the bytes supplied. Seeds and multi-edit mutants are sampled.",
         note="Trusted: the counting allocator and the announce protocol that attributes a dead worker to a case; Value::parse has no I/O seam (its share is plain input generation); the 256 MiB single-allocation ceiling stands in for real memory exhaustion."),
+    "C09": dict(
+        level="fault_enumeration", design="§6 C09",
+        technique="deterministic simulation with network fault injection: real proxy_request / proxy_handler against a scripted upstream on humsim's TCP (cut at every byte by FIN and RST, garbage, refuse, black-holed SYN, silence, accept-close, stall, trickle), virtual-time deadline, real EqMutex<LoadBalancer> under seeded schedules",
+        text="For each generated valid upstream response (39 status codes; Content-Length / chunked / close-delimited / body-less) every byte offset is cut once by FIN and once by RST; plus the other fault behaviours and valid responses from closing and keep-alive upstreams, through proxy_request and through the server's proxy_handler. Oracle: returns within timeout + 1 s of virtual time, never panics, valid response relayed (status, header multiset, body; chunked re-expressed as Content-Length), any fault gives 502, the upstream receives the request unchanged except stripped prefix and one added X-Forwarded-For, round-robin strictly in lock order.",
+        note="Trusted: humsim TCP model (network RTT is small relative to the timeout: slowness is the upstream script's); reference request/response models; epochs 1970..2096."),
     "C10": dict(
         level="fault_enumeration", design="§6 C10",
         technique="scripted-reader simulation of Frame::from_stream: all 65 536 two-byte headers x read plans x truncation at every offset (EOF and reset), plus seeded random frames against a reference RFC 6455 codec",
